@@ -172,4 +172,68 @@ example : Cmp.cmpK false ([1, 2], 0) ([1, 2, 0], 0) > 0 ∧ Cmp.cmpK false ([1, 
     Cmp.cmpK true ([7], 200) ([7], 300) > 0 ∧ Cmp.cmpK true ([7], 300) ([8], 0) > 0 := by
   simp [Cmp.cmpK_false, Cmp.cmpK_true, Cmp.tieBreak_cons_cons, Cmp.cmp3]
 
+/-! ## key comparators — integer keys (`IWDB_VNUM64_KEYS`) -/
+
+/-- Integer keys, plain layout: the comparator on the vnum encodings of two numbers of the
+    `int64_t` non-negative range has the sign of the numeric order (`> 0` iff the lookup key `b` is
+    the larger) — through the decoded values when both encodings have the same length and through
+    the length short-cut otherwise (encoded length is monotone in the value). -/
+theorem vnum_numeric (a b c2 : Nat) (ha : a < 2 ^ 63) (hb : b < 2 ^ 63) :
+    sgn (Cmp.cmpKeys .vnum false (Vnum.enc a) (Vnum.enc b) c2)
+      = if b > a then 1 else if b < a then -1 else 0 := Cmp.cmpKeys_vnum_nc c2 ha hb
+
+/-- Integer keys, compound layout: numeric order on the number, ties broken by the numeric order of
+    the compound part (for every compound part, no bound needed). -/
+theorem vnum_compound_numeric (a b c1 c2 : Nat) (ha : a < 2 ^ 63) (hb : b < 2 ^ 63) :
+    sgn (Cmp.cmpKeys .vnum true (Cmp.stored true (Vnum.enc a) c1) (Vnum.enc b) c2)
+      = if b > a then 1 else if b < a then -1 else if c2 > c1 then 1 else if c2 < c1 then -1 else 0 :=
+  Cmp.cmpKeys_vnum_c c1 c2 ha hb
+
+/-- Hence the integer-key comparator is a strict total order on effective keys `(number, compound)`
+    in both layouts: antisymmetric, transitive, and zero exactly on identical keys (in the plain layout
+    the compound part is not part of the key). -/
+theorem vnum_total (c : Bool) (x y z : Nat × Nat) (hx : x.1 < 2 ^ 63) (hy : y.1 < 2 ^ 63) (hz : z.1 < 2 ^ 63) :
+    sgn (Cmp.cmpV c x y) = - sgn (Cmp.cmpV c y x) ∧
+    (Cmp.cmpV c x y = 0 ↔ x.1 = y.1 ∧ (c = true → x.2 = y.2)) ∧
+    (Cmp.cmpV c x y > 0 → Cmp.cmpV c y z > 0 → Cmp.cmpV c x z > 0) := by
+  cases c with
+  | false =>
+    have e : ∀ u v : Nat × Nat, Cmp.cmpV false u v = Cmp.cmpKeys .vnum false (Vnum.enc u.1) (Vnum.enc v.1) v.2 :=
+      fun u v => by simp [Cmp.cmpV, Cmp.stored]
+    have hxy := vnum_numeric x.1 y.1 y.2 hx hy
+    have hyx := vnum_numeric y.1 x.1 x.2 hy hx
+    have hyz := vnum_numeric y.1 z.1 z.2 hy hz
+    have hxz := vnum_numeric x.1 z.1 z.2 hx hz
+    rw [← e] at hxy hyx hyz hxz
+    refine ⟨?_, ?_, ?_⟩
+    · rw [hxy, hyx]; repeat' split
+      all_goals omega
+    · rw [← Cmp.sgn_zero, hxy]; repeat' split
+      all_goals simp <;> omega
+    · rw [← Cmp.sgn_pos, ← Cmp.sgn_pos, ← Cmp.sgn_pos, hxy, hyz, hxz]; repeat' split
+      all_goals omega
+  | true =>
+    have hxy := vnum_compound_numeric x.1 y.1 x.2 y.2 hx hy
+    have hyx := vnum_compound_numeric y.1 x.1 y.2 x.2 hy hx
+    have hyz := vnum_compound_numeric y.1 z.1 y.2 z.2 hy hz
+    have hxz := vnum_compound_numeric x.1 z.1 x.2 z.2 hx hz
+    refine ⟨?_, ?_, ?_⟩
+    · show sgn (Cmp.cmpKeys _ _ _ _ _) = - sgn (Cmp.cmpKeys _ _ _ _ _)
+      rw [hxy, hyx]; repeat' split
+      all_goals omega
+    · show Cmp.cmpKeys _ _ _ _ _ = 0 ↔ _
+      rw [← Cmp.sgn_zero, hxy]; repeat' split
+      all_goals simp <;> omega
+    · show Cmp.cmpKeys _ _ _ _ _ > 0 → Cmp.cmpKeys _ _ _ _ _ > 0 → Cmp.cmpKeys _ _ _ _ _ > 0
+      rw [← Cmp.sgn_pos, ← Cmp.sgn_pos, ← Cmp.sgn_pos, hxy, hyz, hxz]; repeat' split
+      all_goals omega
+
+/-- non-vacuity: 127 (1 byte) vs 128 (2 bytes) takes the length short-cut, 300 vs 200 the decoded
+    branch; both bounds are satisfiable -/
+example : sgn (Cmp.cmpKeys .vnum false (Vnum.enc 127) (Vnum.enc 128) 0) = 1 ∧
+    sgn (Cmp.cmpKeys .vnum false (Vnum.enc 300) (Vnum.enc 200) 0) = -1 ∧
+    sgn (Cmp.cmpKeys .vnum true (Cmp.stored true (Vnum.enc 5) 9) (Vnum.enc 5) 10) = 1 :=
+  ⟨vnum_numeric 127 128 0 (by decide) (by decide), vnum_numeric 300 200 0 (by decide) (by decide),
+   vnum_compound_numeric 5 5 9 10 (by decide) (by decide)⟩
+
 end IwModel.C19
